@@ -84,3 +84,200 @@ class verify_(ContractBase):
                 'result': c.loc('result')[z3.BoolVal(False)] == some_rule_fails(c.done, t),
                 'rules-only': Implies(c.done[c.sk('r', RULE)], RULES[c.sk('r', RULE)])}
     loops = {'for t in ': Loop(inv=_inv_tasks), 'for r in ': Loop(inv=_inv_rules)}
+
+
+# ------------------------------------------------------------------------------------------------ _walk
+import dawgie as _dawgie
+OBJ = Ref('AeObj')
+SO = SetOf(OBJ)
+KINDS = ('analysis', 'events', 'regress', 'task')
+CBS = ('ifbot', 'ifalg', 'ifsv', 'ifv', 'ifanl', 'ifanz', 'ifret', 'ifrec', 'ifref', 'ifmom')
+for _cb in CBS:
+    W.declare_global('ghost.seen.' + _cb, SO)
+has_factory = z3.Function('package_offers_factory', ATOM.sort(), z3.BoolSort())
+bot_of = z3.Function('object_built_by_factory', ATOM.sort(), OBJ.sort())
+routines = z3.Function('routines_of', OBJ.sort(), SO.sort())
+fb_refs = z3.Function('feedback_refs_of', OBJ.sort(), SO.sort())
+in_refs = z3.Function('input_refs_of', OBJ.sort(), SO.sort())            # traits() / previous() / variables()
+svs_of = z3.Function('state_vectors_of', OBJ.sort(), SO.sort())
+items_of = z3.Function('items_of', OBJ.sort(), SO.sort())
+events_of = z3.Function('events_of', OBJ.sort(), SO.sort())
+for _m, _f in (('routines', routines), ('feedback', fb_refs), ('traits', in_refs), ('previous', in_refs), ('variables', in_refs),
+               ('state_vectors', svs_of), ('items', items_of)):
+    W.methods[('AeObj', _m)] = (lambda f: lambda ex, recv, args, kwargs, line: ex.newbox(f(recv.t), SetOf(OBJ, listlike=True)))(_f)
+_is16 = W.iter_source
+
+
+def _iter_source16(ex, src, line):
+    if isinstance(src, V) and src.ty == OBJ:
+        return ex.newbox(events_of(src.t), SetOf(OBJ, listlike=True))      # `for m in bot` over an events list
+    return _is16(ex, src, line)
+
+
+W.iter_source = _iter_source16
+
+
+def _hasattr16(ex, obj, name, e):
+    if isinstance(obj, Dotted) and obj.path == 'ae_package' and isinstance(name, str):
+        return V(has_factory(atom(name)), BOOL)
+    raise Unsupported('hasattr(%r, %r)' % (obj, name))
+
+
+W.hasattr = _hasattr16
+_dg16 = W.dyn_getattr
+
+
+def _factory_getattr(ex, obj, name, e):
+    if isinstance(obj, Dotted) and obj.path == 'ae_package' and isinstance(name, str):
+        def call(ex2, args, kwargs, e2):
+            return V(bot_of(atom(name)), OBJ)
+        call._pyvc_builtin = True
+        return call
+    return None
+
+
+W.dyn_getattr_hooks.append(_factory_getattr)
+
+
+def _cb(name):
+    def call(ex, args, kwargs, e):
+        g = 'ghost.seen.' + name
+        ex._note_write(g, e.lineno)
+        ex.st.glob[g] = z3.Store(ex.st.glob[g], ex.to_z3(args[0], OBJ), True)
+        return True
+    call._pyvc_builtin = True
+    return call
+
+
+# choice functions: some routine among R one of whose (refs / state vectors / items of state vectors) is x
+w_ref = z3.Function('w_routine_with_ref', SO.sort(), OBJ.sort(), OBJ.sort())
+w_svr = z3.Function('w_routine_with_sv', SO.sort(), OBJ.sort(), OBJ.sort())
+w_itr = z3.Function('w_routine_with_item', SO.sort(), OBJ.sort(), OBJ.sort())
+w_its = z3.Function('w_sv_with_item', SO.sort(), OBJ.sort(), OBJ.sort())
+
+
+def refs_of(a):
+    return z3.Map(z3.Or(z3.Bool('a'), z3.Bool('b')).decl(), fb_refs(a), in_refs(a))
+
+
+def some_ref(R, x):
+    return And(R[w_ref(R, x)], Or(fb_refs(w_ref(R, x))[x], in_refs(w_ref(R, x))[x]))
+
+
+def some_sv(R, x):
+    return And(R[w_svr(R, x)], svs_of(w_svr(R, x))[x])
+
+
+def item_in(S, x):
+    return And(S[w_its(S, x)], items_of(w_its(S, x))[x])
+
+
+def some_item(R, x):
+    return And(R[w_itr(R, x)], item_in(svs_of(w_itr(R, x)), x))
+
+
+def _choice_walk(c):
+    R, S = z3.Const('ch_R', SO.sort()), z3.Const('ch_S', SO.sort())
+    a, sv, x = z3.Consts('ch_a ch_sv ch_x', OBJ.sort())
+    # instantiated where the witness terms w(R, x) occur; the routine / state vector ranges over the shallow terms
+    return [QHyp([R, x, a], Implies(And(R[a], Or(fb_refs(a)[x], in_refs(a)[x])), some_ref(R, x)), 'choice.ref', triggers=[(w_ref, (0, 1))]),
+            QHyp([R, x, a], Implies(And(R[a], svs_of(a)[x]), some_sv(R, x)), 'choice.sv', triggers=[(w_svr, (0, 1))]),
+            QHyp([S, x, sv], Implies(And(S[sv], items_of(sv)[x]), item_in(S, x)), 'choice.item', triggers=[(w_its, (0, 1))]),
+            QHyp([R, x, a], Implies(And(R[a], item_in(svs_of(a), x)), some_item(R, x)), 'choice.routine-item', triggers=[(w_itr, (0, 1))])]
+
+
+def _seen(view, cb):
+    return view.g('ghost.seen.' + cb)
+
+
+def _unchanged(c, since, but=()):
+    x = c.sk('x', OBJ)
+    return {'others-unchanged': And(*[_seen(c.cur, cb)[x] == _seen(since, cb)[x] for cb in CBS if cb not in but])}
+
+
+def _kind_contrib(kind, x):
+    """what walking one factory kind adds to each callback's set"""
+    k = atom(kind)
+    b = bot_of(k)
+    R = routines(b)
+    p = has_factory(k)
+    if kind == 'events':
+        return {'ifmom': And(p, events_of(b)[x])}
+    top, each = {'analysis': ('ifanl', 'ifanz'), 'task': ('ifbot', 'ifalg'), 'regress': ('ifret', 'ifrec')}[kind]
+    return {top: And(p, x == b), each: And(p, R[x]), 'ifref': And(p, some_ref(R, x)), 'ifsv': And(p, some_sv(R, x)), 'ifv': And(p, some_item(R, x))}
+
+
+@contract(W, 'dawgie/tools/compliant.py', '_walk', props=['C16'])
+class walk(ContractBase):
+    """every element of the package is shown to the callback meant for it, and nothing else is"""
+    params = dict({'task': ATOM}, **{cb: _cb(cb) for cb in CBS})
+    modifies = ['ghost.seen.' + cb for cb in CBS]
+    externs = dict({'importlib.import_module': Extern(fn=lambda ex, a, k, e: Dotted('ae_package'))},
+                   **{'ae_package.' + k_: Extern(fn=(lambda kk: lambda ex, a, k, e: V(bot_of(atom(kk)), OBJ))(k_)) for k_ in KINDS})
+    assumes = [_choice_walk]
+    max_inst = 3000
+    same_skolem = True
+
+    def ensures(c):
+        x = c.sk('x', OBJ)
+        out = {}
+        for cb in CBS:
+            adds = [kc[cb] for kc in (_kind_contrib(k, x) for k in KINDS) if cb in kc]
+            out['exactly.' + cb] = _seen(c.cur, cb)[x] == Or(_seen(c.old, cb)[x], *adds)
+        return out
+
+    @staticmethod
+    def _inv_routines(each):
+        def inv(c):
+            x = c.sk('x', OBJ)
+            out = _unchanged(c, c.entry, but=(each, 'ifref', 'ifsv', 'ifv'))
+            out.update({each: _seen(c.cur, each)[x] == Or(_seen(c.entry, each)[x], c.done[x]),
+                        'ifref': _seen(c.cur, 'ifref')[x] == Or(_seen(c.entry, 'ifref')[x], some_ref(c.done, x)),
+                        'ifsv': _seen(c.cur, 'ifsv')[x] == Or(_seen(c.entry, 'ifsv')[x], some_sv(c.done, x)),
+                        'ifv': _seen(c.cur, 'ifv')[x] == Or(_seen(c.entry, 'ifv')[x], some_item(c.done, x))})
+            return out
+        return inv
+
+    def _inv_refs(c):
+        x = c.sk('x', OBJ)
+        out = _unchanged(c, c.entry, but=('ifref',))
+        out['ifref'] = _seen(c.cur, 'ifref')[x] == Or(_seen(c.entry, 'ifref')[x], c.done[x])
+        return out
+
+    def _inv_svs(c):
+        x = c.sk('x', OBJ)
+        out = _unchanged(c, c.entry, but=('ifsv', 'ifv'))
+        out['ifsv'] = _seen(c.cur, 'ifsv')[x] == Or(_seen(c.entry, 'ifsv')[x], c.done[x])
+        out['ifv'] = _seen(c.cur, 'ifv')[x] == Or(_seen(c.entry, 'ifv')[x], item_in(c.done, x))
+        return out
+
+    def _inv_items(c):
+        x = c.sk('x', OBJ)
+        out = _unchanged(c, c.entry, but=('ifv',))
+        out['ifv'] = _seen(c.cur, 'ifv')[x] == Or(_seen(c.entry, 'ifv')[x], c.done[x])
+        return out
+
+    def _inv_moments(c):
+        x = c.sk('x', OBJ)
+        out = _unchanged(c, c.entry, but=('ifmom',))
+        out['ifmom'] = _seen(c.cur, 'ifmom')[x] == Or(_seen(c.entry, 'ifmom')[x], c.done[x])
+        return out
+
+
+_M = ['ghost.seen.' + cb for cb in CBS]
+walk.loops = {'for a in bot.routines()': Loop(inv=lambda c: walk._by_kind(c), modifies=_M),
+              'for r in bot.routines()': Loop(inv=walk._inv_routines('ifrec'), modifies=_M),
+              'for ref in ': Loop(inv=walk._inv_refs, modifies=_M),
+              'for sv in ': Loop(inv=walk._inv_svs, modifies=_M),
+              'for i in sv.items()': Loop(inv=walk._inv_items, modifies=_M),
+              'for m in bot': Loop(inv=walk._inv_moments, modifies=_M)}
+
+
+def _by_kind(c):
+    """`for a in bot.routines()` occurs in the analysis and in the task branch: which one is told by the enum member `e`"""
+    e = c.ex.st.env.get('e')
+    each = 'ifanz' if e is _dawgie.Factories.analysis else 'ifalg'
+    return walk._inv_routines(each)(c)
+
+
+walk._by_kind = staticmethod(_by_kind)
